@@ -260,7 +260,7 @@ def build_variants(src, params, variants, modname, future=False):
     init = render(params, "__init__", first="self").replace("return {" + ", ".join(f"{n!r}: {n}" for n in names) + "}",
                                                               "self.received = {" + ", ".join(f"{n!r}: {n}" for n in names) + "}")
     code += "class Klass:\n" + "\n".join("    " + l for l in init.splitlines()) + "\n"
-    exec(compile(code, f"/verif/out/generated/{modname}.py", "exec"), mod.__dict__)
+    exec(compile(code, f"/verif/out/generated/{modname}.py", "exec", dont_inherit=True), mod.__dict__)
     h = mod.Holder()
     allv = {"decorated": mod.decorated, "function": mod.f, "method": h.meth, "static": mod.Holder.smeth, "classmethod": mod.Holder.cmeth, "instance": h, "class": mod.Klass}
     return {v: allv[v] for v in variants}, mod
